@@ -435,8 +435,11 @@ package desync
 //# because the feeder closed the hand-over channel, never because of a cancellation. Together: a nil
 //# result means every chunk of the archive was written into the pipe before it was closed.
 //@ func UnTarIndex
-//@   prop C07
+//@   prop C07 C03
 //@   safety none
+//# C03: what a worker hands to the assembler for an index row is the plain form of a chunk the store returned
+//# for that row's ID (digest equal to the ID unless that store skips verification) and has the row's size
+//@   lit 1: assert@send:r.data @C03 (H(bytes(v)) == r.chunk.ID || s.$skip) && len(v) == r.chunk.Size
 //@   requires n >= 1 && $consumed >= 0
 //@   lit 4: requires $consumed >= 0
 //@   lit 2: ghost@entry $eof = false
